@@ -2,7 +2,7 @@
     expressions of fragment 1: the result of eval_expr, evaluated in a concrete state rho, equals the argument evaluated in the
     state where every bound identifier takes the value of its binding in rho. *)
 From Coq Require Import ZArith List Bool String Lia.
-From Mx Require Import ModInt Expr ExprProofs Simp SimpProofs EvalAbs.
+From Mx Require Import ModInt Expr ExprProofs Simp SliceLemmas SimpProofs EvalAbs.
 Import ListNotations.
 Open Scope list_scope.
 Open Scope Z_scope.
@@ -94,7 +94,7 @@ Section Subst.
     inversion Sz as [[Sa Sr]].
     split; [|split].
     - change (wfq (EOp op (a' :: r'))) with (forallb wfq (a' :: r') && op_ok op (a' :: r')). apply andb_true_iff. split; [apply forallb_Forall; exact A|].
-      unfold op_ok, args_ok in *. rewrite Sa, Ln. rewrite (same_size_map (size a) (a :: r) (a' :: r') Sz). exact O.
+      unfold op_ok in *. rewrite Sa, Ln. rewrite (args_ok_sizes op (size a) (a :: r) (a' :: r') Sz). exact O.
     - simpl. rewrite Sa. destruct (size a =? 0); [|reflexivity]. destruct r, r'; simpl in *; try discriminate; congruence.
     - rewrite !eval_op_node. rewrite Ev. f_equal. simpl. rewrite Sa. destruct (size a =? 0); [|reflexivity]. destruct r, r'; simpl in *; try discriminate; congruence.
   Qed.
@@ -124,7 +124,7 @@ Section Subst.
 
   Lemma const_op_value op w vs r : frag_op op = true -> 0 < w -> Forall (fun v => 0 <= v) vs -> hd 0 vs < 2 ^ w ->
     (is_shift op = true -> List.length vs = 2%nat) ->
-    match opk_of op with OEq => List.length vs = 2%nat | OParity => List.length vs = 1%nat | _ => True end ->
+    match opk_of op with OEq | ORol | ORor => List.length vs = 2%nat | OParity => List.length vs = 1%nat | _ => True end ->
     eval_const_op op w vs = Ok r -> wrap w r = eval_op iota op w vs.
   Proof.
     unfold frag_op, is_shift, eval_const_op, eval_op. intros F Hw Nn Hd Ln La H. destruct (opk_of op); try discriminate.
@@ -148,14 +148,23 @@ Section Subst.
       pose proof (sgn_bound w a Hw) as B. f_equal.
       destruct (Z_le_gt_dec c w) as [L|L]; [f_equal; lia|].
       rewrite (Z.min_r c w) by lia. apply sar_sat; lia.
+    - destruct vs as [|a [|c [|? ?]]]; try discriminate. destruct (mymaxuint_ok w); [|discriminate]. inversion H; subst r. clear H.
+      inversion Nn as [|? ? Pa Nn']; subst. cbn [hd] in Hd. replace (w =? 0) with false by (symmetry; apply Z.eqb_neq; lia). unfold rol. cbv zeta.
+      replace (2 ^ w - 1) with (Z.ones w) by (rewrite Z.ones_equiv; lia). rewrite (Z.land_ones a), (Z.mod_small a) by lia. replace (wrap w a) with a by (symmetry; apply Z.mod_small; lia).
+      apply wrap_eq_bits; [lia|]. intros i Hi. rewrite !Z.lor_spec, Z.land_spec, Z.ones_spec_low by lia. rewrite andb_true_r. reflexivity.
+    - destruct vs as [|a [|c [|? ?]]]; try discriminate. destruct (mymaxuint_ok w); [|discriminate]. inversion H; subst r. clear H.
+      inversion Nn as [|? ? Pa Nn']; subst. cbn [hd] in Hd. replace (w =? 0) with false by (symmetry; apply Z.eqb_neq; lia). unfold ror. cbv zeta.
+      replace (2 ^ w - 1) with (Z.ones w) by (rewrite Z.ones_equiv; lia). rewrite (Z.land_ones a), (Z.mod_small a) by lia. replace (wrap w a) with a by (symmetry; apply Z.mod_small; lia).
+      apply wrap_eq_bits; [lia|]. intros i Hi. rewrite !Z.lor_spec, Z.land_spec, Z.ones_spec_low by lia. rewrite andb_true_r. reflexivity.
     - destruct vs as [|a [|b [|? ?]]]; try discriminate. inversion H; subst r. destruct (a =? b); [reflexivity|]. unfold wrap. apply Z.mod_0_l. apply Z.pow_nonzero; lia.
     - destruct vs as [|a [|? ?]]; try discriminate. inversion H; subst r. reflexivity.
   Qed.
   Lemma op_ok_arity op args : op_ok op args = true ->
-    match opk_of op with OEq => List.length args = 2%nat | OParity => List.length args = 1%nat | _ => True end.
+    match opk_of op with OEq | ORol | ORor => List.length args = 2%nat | OParity => List.length args = 1%nat | _ => True end.
   Proof.
-    unfold op_ok. destruct args as [|a r]; [discriminate|]. intros H. apply andb_true_iff in H as [_ H].
-    destruct (opk_of op); try exact I; apply Nat.eqb_eq; exact H.
+    unfold op_ok. destruct args as [|a r]; [discriminate|]. intros H. apply andb_true_iff in H as [H0 H]. apply andb_true_iff in H0 as [_ Ao].
+    destruct (opk_of op) eqn:Ek; try exact I; try (apply Nat.eqb_eq; exact H);
+      (unfold args_ok, is_shift, is_rot in Ao; rewrite Ek in Ao; unfold rot_args_ok in Ao; destruct r as [|c [|? ?]]; try discriminate; reflexivity).
   Qed.
 
   Lemma ints_nonneg ints : forallb wfq (map (fun '(sg, w, v) => EInt sg w v) ints) = true -> Forall (fun v => 0 <= v) (map (fun '(_, _, v) => v) ints).
@@ -169,7 +178,7 @@ Section Subst.
   Proof. unfold args_ok. intros A S. rewrite S in A. rewrite map_length in *. apply Nat.eqb_eq. exact A. Qed.
 
   Lemma arity_vs op (ints : list (bool * Z * Z)) : op_ok op (map (fun '(sg, w, v) => EInt sg w v) ints) = true ->
-    match opk_of op with OEq => List.length (map (fun '(_, _, v) => v) ints) = 2%nat | OParity => List.length (map (fun '(_, _, v) => v) ints) = 1%nat | _ => True end.
+    match opk_of op with OEq | ORol | ORor => List.length (map (fun '(_, _, v) => v) ints) = 2%nat | OParity => List.length (map (fun '(_, _, v) => v) ints) = 1%nat | _ => True end.
   Proof. intros H. pose proof (op_ok_arity _ _ H) as A. rewrite map_length in *. exact A. Qed.
 
   Lemma consts_rel op args e' : wfq (EOp op args) = true -> eval_op_consts op args = inl (Ok e') ->
